@@ -196,6 +196,18 @@ def agree_body(ctx, case):
     sc = max(1.0, abs(e_plain))
     for name, ref in (("ad", e_plain), ("ad_norot", e_plain), ("ad_nosr", e_plain1), ("ad_nosr_norot", e_plain1)):
         ctx.check_close(f"agree:{name}-vs-plain:{tag}", case, f"energy {name} - plain [{tag}]", float(res[name][0]), ref, 1e-10, sc)
+    # the two entry points without reconfiguration differ only in the orbital relaxation (the identity for a converged trial): handed the *same*
+    # sampler - including one whose n_sr_blocks is not 1, as the driver does when do_sr is off - they must run the same blocks
+    if smp.n_sr_blocks > 1:
+        try:
+            ra = sl.entry_point("ad_nosr", smp, P, hd)(0.0, obs, sl.copy_pd(pd0))
+            rb = sl.entry_point("ad_nosr_norot", smp, P, hd)(0.0, obs, sl.copy_pd(pd0))
+        except Exception as ex:
+            ctx.fail(f"agree:raised-{type(ex).__name__}:{tag}", case, f"{type(ex).__name__}: {str(ex)[:300]}")
+            return
+        ctx.count("agree:nosr-pair-with-n_sr_blocks>1")
+        ctx.check_close(f"agree:ad_nosr-vs-ad_nosr_norot:same-sampler:{tag}", case, f"energy ad_nosr - ad_nosr_norot, n_sr_blocks={smp.n_sr_blocks} [{tag}]", float(ra[0]), float(rb[0]), 1e-10, sc)
+        ctx.check_close(f"agree:ad_nosr-vs-ad_nosr_norot:same-sampler:weights:{tag}", case, f"weights ad_nosr - ad_nosr_norot, n_sr_blocks={smp.n_sr_blocks} [{tag}]", np.asarray(ra[1]["weights"]), np.asarray(rb[1]["weights"]), 1e-10, float(np.max(np.abs(np.asarray(rb[1]["weights"])))) + 1e-300)
     for name, refpd in (("ad", pd_plain), ("ad_norot", pd_plain)):
         ctx.check_close(f"agree:{name}-weights-vs-plain:{tag}", case, f"weights {name} - plain [{tag}]", np.asarray(res[name][1]["weights"]), np.asarray(refpd["weights"]), 1e-10, float(np.max(np.abs(np.asarray(refpd["weights"])))) + 1e-300)
     # batch-count independence
